@@ -634,7 +634,7 @@ class TlsCertificates(VectorParsable):
         return VectorParamParsable(
             item_class=TlsCertificate,
             fallback_class=None,
-            min_byte_num=1, max_byte_num=2 ** 24 - 1
+            min_byte_num=0, max_byte_num=2 ** 24 - 1
         )
 
 
